@@ -259,6 +259,9 @@ func (lib *SpecLib) parseLines(lines []rawLine, pkgPath string, isSpec bool) err
 				return fail("missing function name")
 			}
 			cur = &Contract{Key: fields[0], Flags: map[string]bool{"trusted-block": true}, File: rl.file, Line: rl.line, Tags: tags}
+			for _, fl := range fields[1:] {
+				cur.Flags[fl] = true // e.g. "pure": assumed, like the clauses
+			}
 			lib.Trusted = append(lib.Trusted, cur)
 			counts = map[string]int{}
 			lib.Assumes = append(lib.Assumes, "trusted clauses about "+fields[0])
@@ -695,6 +698,11 @@ func (lib *SpecLib) MergeTrusted() {
 		if c == nil {
 			c = &Contract{Key: t.Key, Flags: map[string]bool{}, File: t.File, Line: t.Line}
 			lib.Contracts[t.Key] = c
+		}
+		for fl := range t.Flags {
+			if fl != "trusted-block" && len(t.Tags) == 0 {
+				c.Flags[fl] = true
+			}
 		}
 		for _, cl := range t.Clauses {
 			cl.Assumed = true
